@@ -21,7 +21,7 @@ func TestConstructs(t *testing.T) {
 	if err != nil {
 		t.Fatal(err)
 	}
-	if res.MutexOps < 6 || res.PoolOps != 2 || res.MapRanges != 5 || res.OnceOps != 1 {
+	if res.MutexOps < 6 || res.GoStmts != 2 || res.PoolOps != 2 || res.MapRanges != 5 || res.OnceOps != 1 {
 		t.Fatalf("unexpected rewrite counts: %+v", res)
 	}
 	run := func(libDir string) string {
@@ -52,11 +52,11 @@ func TestConstructs(t *testing.T) {
 func TestUnsupported(t *testing.T) {
 	verif, _ := filepath.Abs("../..")
 	cases := map[string]string{
-		"go statement":    "package lib\nfunc F() { go func() {}() }\n",
+		"go builtin":      "package lib\nfunc F() { go println() }\n",
 		"range over chan": "package lib\nfunc F(c chan int) { for range c {} }\n",
 		"blocking select": "package lib\nfunc F(c chan int) { select { case <-c: } }\n",
 		"time.Sleep":      "package lib\nimport \"time\"\nfunc F() { time.Sleep(1) }\n",
-		"sync.WaitGroup":  "package lib\nimport \"sync\"\nvar wg sync.WaitGroup\nfunc F() { wg.Wait() }\n",
+
 		"sync.Cond":       "package lib\nimport \"sync\"\nvar c = sync.NewCond(&sync.Mutex{})\nfunc F() { c.Wait() }\n",
 	}
 	for name, src := range cases {
